@@ -376,7 +376,7 @@ Lemma bicg_body_step itol tol bnrm i s out : itol = 1 \/ itol = 2 -> bi_lens s -
   bicg_body mulA mulAT n itol tol bnrm i s = Ok out ->
   exists x' r' rr' p pp rho,
     bicg_step i (bi_x s) (bi_r s) (bi_rr s) (bi_p s) (bi_pp s) (bi_rho2 s) x' r' rr' p pp rho /\
-    ((exists g, out = Return (IOk i, x', g)) \/
+    ((exists X, out = Return (IOk i, x', mkG r' X 1)) \/
      (exists zz' err X, length zz' = n /\ out = Continue (mkBI x' r' rr' r' zz' p pp rho err X))).
 Proof.
   intros Hit (Hx & Hr & Hrr & Hz & Hzz & Hp & Hpp & Ez) H.
@@ -413,7 +413,7 @@ Proof.
   split.
   - split; [reflexivity|]. split; [exact Hdirspec|]. exists z0, zz', alpha. repeat split; auto.
   - destruct (leb err tol); injection H as <-.
-    + left. eauto.
+    + left. destruct Hit as [-> | ->]; cbn [Nat.eqb]; eauto.
     + right. do 3 eexists. split; [exact Hzz' | reflexivity].
 Qed.
 
@@ -486,7 +486,7 @@ Proof.
   assert (Hstep : forall i s s', Inv i s -> bd i s = Ok (Continue s') -> Inv (S i) s').
   { intros i s s' (Hls & Hcase) Eb.
     destruct (bicg_body_step itol tol (nz bnrm) i s _ Hit Hls Eb)
-      as (x' & r' & rr' & p & pp & rho & Hstp & [(g' & Eo)|(zz' & err & X & Hzz' & Eo)]); [discriminate Eo|].
+      as (x' & r' & rr' & p & pp & rho & Hstp & [(X' & Eo)|(zz' & err & X & Hzz' & Eo)]); [discriminate Eo|].
     injection Eo as ->. cbn [bi_x bi_r bi_rr bi_p bi_pp bi_rho2].
     assert (HI : exists R RR P PP, biI x' r' rr' p pp rho R RR P PP /\ length R = S i - 1).
     { destruct Hcase as [(-> & ->)|(Hi & R & RR & P & PP & HI & HlR)].
@@ -504,7 +504,7 @@ Proof.
   destruct (iloop_char bd (bicg_final itol) Inv Hstep max 1 s0 _ H0 H)
     as [(i & s & Hi & (Hls & Hcase) & Eb)|(s & (Hls & Hcase) & E)].
   - destruct (bicg_body_step itol tol (nz bnrm) i s _ Hit Hls Eb)
-      as (x' & r' & rr' & p & pp & rho & Hstp & [(g' & Eo)|(zz' & err & X & Hzz' & Eo)]); [|discriminate Eo].
+      as (x' & r' & rr' & p & pp & rho & Hstp & [(X' & Eo)|(zz' & err & X & Hzz' & Eo)]); [|discriminate Eo].
     injection Eo as -> _ _. exists i. split; [reflexivity|].
     destruct Hcase as [(-> & _)|(Hi2 & R & RR & P & PP & HI & HlR)]; [lia|].
     destruct Hstp as (_ & Hdir & _). replace (i =? 1) with false in Hdir by (symmetry; apply Nat.eqb_neq; lia).
@@ -532,7 +532,7 @@ Proof.
     - split; auto.
     - destruct IH as (Hls & Hcase).
       destruct (bicg_body_step itol tol bnrm i s _ Hit Hls Eb)
-        as (x' & r' & rr' & p & pp & rho & Hstp & [(g' & Eo)|(zz' & err & X & Hzz' & Eo)]); [discriminate Eo|].
+        as (x' & r' & rr' & p & pp & rho & Hstp & [(X' & Eo)|(zz' & err & X & Hzz' & Eo)]); [discriminate Eo|].
       injection Eo as ->. cbn [bi_x bi_r bi_rr bi_p bi_pp bi_rho2].
       assert (HI : exists R RR P PP, biI x' r' rr' p pp rho R RR P PP /\ length R = S i - 1).
       { destruct Hcase as [(-> & ->)|(Hi & R & RR & P & PP & HI & HlR)].
@@ -552,6 +552,82 @@ Proof.
   split; [lia|]. split; [exact BO | exact HI].
 Qed.
 
+(* the start pair stays in the history *)
+Lemma bicg_reach_first itol tol bnrm (s0 : @bicg_st A) i s :
+  itol = 1 \/ itol = 2 -> bi_lens s0 -> bi_rr s0 = bi_r s0 ->
+  reaches (bicg_body mulA mulAT n itol tol bnrm) 1 s0 i s ->
+  bi_lens s /\ ((i = 1 /\ s = s0) \/
+    (2 <= i /\ exists R RR P PP, biI (bi_x s) (bi_r s) (bi_rr s) (bi_p s) (bi_pp s) (bi_rho2 s) R RR P PP /\
+                 In (bi_r s0, bi_r s0) (combine R RR))).
+Proof.
+  intros Hit Hl0 Hsh Hr. induction Hr as [|i s s' Hr IH Eb].
+  - split; auto.
+  - destruct IH as (Hls & Hcase).
+    destruct (bicg_body_step itol tol bnrm i s _ Hit Hls Eb)
+      as (x' & r' & rr' & p & pp & rho & Hstp & [(X' & Eo)|(zz' & err & X & Hzz' & Eo)]); [discriminate Eo|].
+    injection Eo as ->. cbn [bi_x bi_r bi_rr bi_p bi_pp bi_rho2].
+    assert (HI : exists R RR P PP, biI x' r' rr' p pp rho R RR P PP /\ In (bi_r s0, bi_r s0) (combine R RR)).
+    { destruct Hcase as [(-> & ->)|(Hi & R & RR & P & PP & HI & Hin)].
+      - destruct Hl0 as (Hx0 & Hr0 & _). rewrite Hsh in Hstp.
+        exists [bi_r s0], [bi_r s0], [p], [pp]. split; [|now left].
+        exact (bi_first_step (bi_x s0) (bi_r s0) x' r' rr' p pp rho _ _ _ Hx0 Hr0 Hstp).
+      - exists (bi_r s :: R), (bi_rr s :: RR), (p :: P), (pp :: PP). split; [|now right].
+        apply (bi_next_step i (bi_x s) (bi_r s) (bi_rr s) (bi_p s) (bi_pp s) (bi_rho2 s) R RR P PP); auto.
+        apply Nat.eqb_neq. lia. }
+    destruct HI as (R & RR & P & PP & HI & Hin). split.
+    + destruct HI as (Hx' & Hr' & Hrr' & _ & _ & HlP & HlPP & _ & (zr & zrr & R' & RR' & P' & PP' & _ & _ & _ & _ & _ & -> & -> & _) & _).
+      unfold bi_lens; cbn. repeat split; auto; [exact (Forall_inv HlP) | exact (Forall_inv HlPP)].
+    + right. split; [apply reaches_ge in Hr; lia|]. exists R, RR, P, PP. auto.
+Qed.
+
+(* the solver as a whole, ANY square matrix: whenever at least one iteration was performed the final residual -- the true
+   residual b - A x (residual_invariant_bicg) -- is orthogonal to the initial residual b - A x0 (= the initial shadow residual) *)
+Theorem solve_bicg_residual_orth_initial itol (b x0 : list F) max tol res x g :
+  solve_bicg mulA mulAT n n itol b x0 max tol = Ok (res, x, g) ->
+  g_exit g = 1 \/ (g_exit g = 2 /\ 1 <= max) ->
+  exists ax0, mulA x0 = Ok ax0 /\ dot_raw (g_t g) (zipw sub b ax0) = zero.
+Proof.
+  intros H Hex. unfold solve_bicg in H.
+  apply bind_ok in H as (((r0 & bnrm) & z) & Estart & H).
+  pose proof (bicg_start_z_is_r mulA n n itol b x0 r0 bnrm z Estart) as ->.
+  pose proof Estart as E2. apply bicg_start_Ok in E2 as (Hit & _).
+  assert (Hfacts : exists ax0, mulA x0 = Ok ax0 /\ r0 = zipw sub b ax0 /\ length x0 = n /\ length r0 = n).
+  { unfold bicg_start in Estart. apply bind_ok in Estart as (u & Hg & E). apply guards_Ok in Hg as (Hb & _ & Hx).
+    apply bind_ok in E as (ax & Eax & E). apply bind_ok in E as (r' & Er & E).
+    apply bind_ok in E as (bz & _ & E). injection E as <- _ _.
+    apply vsub_Ok in Er as (Hl & ->). exists ax. repeat split; auto; try lia. rewrite zipw_length; lia. }
+  destruct Hfacts as (ax0 & Eax0 & Er0 & Hx0 & Hr0). exists ax0. split; auto. rewrite <- Er0.
+  apply bind_ok in H as (err0 & _ & H). destruct (leb err0 tol).
+  { injection H as _ _ <-. cbn in Hex. destruct Hex as [Hex|(Hex & _)]; discriminate Hex. }
+  set (bd := bicg_body mulA mulAT n itol tol (nz bnrm)) in *.
+  set (s0 := mkBI x0 r0 r0 r0 (zeros n) (zeros n) (zeros n) one err0 (trace0 x0 err0 tol)) in *.
+  assert (Hl0 : bi_lens s0).
+  { unfold bi_lens, s0; cbn. pose proof (@zeros_length A n). repeat split; auto. }
+  assert (Hsh : bi_rr s0 = bi_r s0) by reflexivity.
+  assert (Hkey : forall xx r rr p pp rho2 R RR P PP, biI xx r rr p pp rho2 R RR P PP ->
+                   In (r0, r0) (combine R RR) -> dot_raw r r0 = zero).
+  { intros xx r rr p pp rho2 R RR P PP HI Hin. destruct HI as (_ & _ & _ & _ & _ & _ & _ & _ & _ & BO & _).
+    apply FOP_cons_inv in BO as (BO & _). rewrite Forall_forall in BO. destruct (BO _ Hin) as (H1 & _). exact H1. }
+  apply iloop_reach in H as [(i & s & Hi & Hr & Eb)|(s & Hr & E)].
+  - destruct (bicg_reach_first itol tol (nz bnrm) s0 i s Hit Hl0 Hsh Hr) as (Hls & Hcase).
+    destruct (bicg_body_step itol tol (nz bnrm) i s _ Hit Hls Eb)
+      as (x' & r' & rr' & p & pp & rho & Hstp & [(X' & Eo)|(zz' & err & X & Hzz' & Eo)]); [|discriminate Eo].
+    injection Eo as _ _ ->. cbn [g_t].
+    destruct Hcase as [(-> & ->)|(Hi2 & R & RR & P & PP & HI & Hin)].
+    + change (bi_rr s0) with (bi_r s0) in Hstp.
+      pose proof (bi_first_step (bi_x s0) (bi_r s0) x' r' rr' p pp rho _ _ _ Hx0 Hr0 Hstp) as HI'.
+      apply (Hkey _ _ _ _ _ _ _ _ _ _ HI'). now left.
+    + assert (HI' : biI x' r' rr' p pp rho (bi_r s :: R) (bi_rr s :: RR) (p :: P) (pp :: PP)).
+      { apply (bi_next_step i (bi_x s) (bi_r s) (bi_rr s) (bi_p s) (bi_pp s) (bi_rho2 s) R RR P PP); auto.
+        apply Nat.eqb_neq. lia. }
+      apply (Hkey _ _ _ _ _ _ _ _ _ _ HI'). now right.
+  - unfold bicg_final in E. injection E as -> -> ->. cbn [g_t g_exit] in *.
+    destruct Hex as [Hex|(_ & Hmax)]; [discriminate Hex|].
+    destruct (bicg_reach_first itol tol (nz bnrm) s0 _ s Hit Hl0 Hsh Hr) as (Hls & Hcase).
+    destruct Hcase as [(Hi & _)|(_ & R & RR & P & PP & HI & Hin)]; [lia|].
+    destruct Hls as (_ & _ & _ & _ & _ & _ & _ & Ez). rewrite Ez. destruct (itol =? 2); exact (Hkey _ _ _ _ _ _ _ _ _ _ HI Hin).
+Qed.
+
 End BiCGRun.
 
 (* for the implementation's own matrix type, any field *)
@@ -569,4 +645,24 @@ Proof.
   pose proof (sp_mul_AdjOp RL s (Sparse.sp_rows s) Hwf eq_refl (eq_sym Hsq)) as ADJ.
   unfold run_sparse in H. cbn [run] in H. rewrite <- Hsq in H.
   exact (bicg_breakdown_or_terminates FL (Sparse.sp_rows s) (Sparse.sp_mul s) (Sparse.sp_tmul s) LO LOT ADJ itol b x0 max tol res x g Hmax H).
+Qed.
+
+Theorem bicg_final_residual_orth_initial_sparse {A : SArith} (FL : FieldLaws (SA A))
+    (s : Sparse.sparse (SA A)) itol (b x0 : list (T (SA A))) max tol res x g :
+  SparseBase.wfS s ->
+  run_sparse (BiCG itol) s b x0 max tol = Ok (res, x, g) ->
+  g_exit g = 1 \/ (g_exit g = 2 /\ 1 <= max) ->
+  dot_raw (zipw sub b (sp_apply s x)) (zipw sub b (sp_apply s x0)) = zero.
+Proof.
+  intros Hwf H Hex.
+  destruct (run_sparse_square (BiCG itol) s b x0 max tol _ H) as (Hsq & Hb & Hx).
+  pose proof (FL_RingLaws FL) as RL.
+  pose proof (sp_mul_LinOp RL s (Sparse.sp_rows s) Hwf eq_refl (eq_sym Hsq)) as LO.
+  pose proof (sp_tmul_LinOp RL s (Sparse.sp_rows s) Hwf eq_refl (eq_sym Hsq)) as LOT.
+  pose proof (sp_mul_AdjOp RL s (Sparse.sp_rows s) Hwf eq_refl (eq_sym Hsq)) as ADJ.
+  destruct (run_sparse_tracks FL (BiCG itol) s b x0 max tol res x g Hwf H) as (Eg & _).
+  unfold run_sparse in H. cbn [run] in H. rewrite <- Hsq in H.
+  destruct (solve_bicg_residual_orth_initial FL (Sparse.sp_rows s) (Sparse.sp_mul s) (Sparse.sp_tmul s) LO LOT ADJ
+              itol b x0 max tol res x g H Hex) as (ax0 & Eax0 & Ho).
+  apply (sp_mul_Ok_inv RL) in Eax0 as ->; auto; [|lia]. now rewrite <- Eg.
 Qed.
